@@ -1133,6 +1133,14 @@ class Interp:
         if isinstance(obj, (list, tuple, str)):
             if isinstance(idx, slice):
                 return obj[slice(*(None if x is None else self._conc_index(x) for x in (idx.start, idx.stop, idx.step)))]
+            fi = force(idx)
+            if isinstance(fi, SNum) and fi.is_int and not z3.is_int_value(z3.simplify(fi.re)) and isinstance(obj, (list, tuple)) and len(obj) <= 16:
+                # symbolic integer index into a short concrete sequence: one path per position (an index proved out of range raises)
+                from .values import CTX
+                for j in range(len(obj)):
+                    if CTX.path.branch(z3.Or(fi.re == j, fi.re == j - len(obj))):
+                        return obj[j]
+                raise_py('IndexError', 'index out of range')
             i = self._conc_index(idx)
             try:
                 return obj[i]
